@@ -183,7 +183,7 @@ def wb_cases(tier):
     for si, shape in enumerate(F.shapes(2)):
         for forms in F.form_deviations(shape, k):
             n += 1
-            if has_col({'forms': forms}) and (si % (10 if q else 2) or sum(f == 'col' for r in forms for f in r) > 1):
+            if has_col({'forms': forms}) and (si % (10 if q else 5) or sum(f != 'cell' for r in forms for f in r) > 1):
                 continue        # whole-column references cost 3 s per model: explored on a sub-family
             dev = sum(f != 'cell' for r in forms for f in r)
             yield {'k': 'wb', 'shape': shape, 'forms': forms, 'paths': ['dict', 'file'] if (dev <= 1 and (not q or n % 3 == 0)) else ['dict']}
@@ -197,6 +197,8 @@ def wb_cases(tier):
             yield {'k': 'wb', 'shape': shape, 'forms': [['col'] * len(shape[0])], 'paths': ['dict'], 'slow_ok': True}
         for shape in F.shapes(3):
             for forms in F.form_deviations(shape, 1):
+                if has_col({'forms': forms}):
+                    continue
                 if forms != [['cell'] * len(d) for d in shape]:
                     yield {'k': 'wb', 'shape': shape, 'forms': forms, 'paths': ['dict']}
         for i, shape in enumerate(F.shapes(4)):
@@ -235,7 +237,9 @@ def sched_cases(tier):
     # small dictionaries: all permutations
     for shape in F.shapes(1):
         for forms in F.form_deviations(shape, 1 if q else 2):
-            yield {'k': 'wb', 'shape': shape + [[4]], 'forms': forms + [['cell']], 'paths': ['dict'], 'sched': 'dict', 'full': not q}
+            if has_col({'forms': forms}) and sum(f != 'cell' for r in forms for f in r) > 1:
+                continue
+            yield {'k': 'wb', 'shape': shape + [[4]], 'forms': forms + [['cell']], 'paths': ['dict'], 'sched': 'dict', 'full': not q and not has_col({'forms': forms})}
     if not q:
         for shape in F.shapes(3)[::5]:
             forms = [['range' if e == 0 else 'name' for e in range(len(d))] for d in shape]
